@@ -455,9 +455,9 @@ def models():
                 family='dump', qn=1, tn=1, qo=4, to=4, rtypes=[]))
     # ---- an enum that mixes in str ---------------------------------------------------
     lv = C('Lv', kind='enum', members=['hi', 'lo'], strmixin=True)
-    hl = C('Hl', [P('lv', K('Lv')), P('m', D(INT, K('Lv')), ['dict', []])])
+    hl = C('Hl', [P('lv', K('Lv')), P('o', Opt(K('Lv')), ['null'])])
     ms.append(M('strenum', [lv, hl], [K('Lv'), K('Hl'), L(K('Lv'))],
-                keys=['lv', 'm', 'hi'], scalars=[['str', 'hi'], ['str', 'lo'], S_42],
+                keys=['lv', 'o', 'hi'], scalars=[['str', 'hi'], ['str', 'lo'], S_42],
                 strs=['hi'], qn=4, tn=4, qo=4, to=5))
     # ---- a string class derived from yatiml.String --------------------------------
     ys = C('Ys', kind='ystring', rejects=['abc'])
@@ -517,6 +517,10 @@ def models():
 # thinks of.
 # ---------------------------------------------------------------------------
 GEN_SEEDS = list(range(1, 13))
+import os as _os
+if _os.environ.get('VERIF_GEN_SEEDS'):      # exploration aid, not used by the registered checks
+    _a, _b = _os.environ['VERIF_GEN_SEEDS'].split('-')
+    GEN_SEEDS = list(range(int(_a), int(_b) + 1))
 
 
 def gen_model(seed):
